@@ -110,7 +110,7 @@ class Model:
 
     def enabled(self, ev):
         if ev in ("A", "AS"):
-            return not self.assembled
+            return True
         if ev == "W":
             return True
         if ev in ("M0", "M1"):
@@ -150,11 +150,9 @@ class Model:
         self.moves = []
 
     def apply(self, ev):
-        if ev == "A":
-            self.skip_edges = False
-            self._assemble()
-        elif ev == "AS":
-            self.skip_edges = True
+        if ev in ("A", "AS"):
+            # (on an assembled mesh: starts over from the depot, like clear() + assemble(); moved vertices are dropped)
+            self.skip_edges = ev == "AS"
             self._assemble()
         elif ev == "W":
             if not self.assembled:
